@@ -639,4 +639,664 @@ theorem lastNewline_tail (b : Bytes) :
         have : 1 + t.length = (a :: t).length := by simp; omega
         rw [this]; simp
 
+/-! ### the hold-back point is safe -/
+
+/-- the text after the leading line break of `a :: t` contains another line break -/
+theorem hasNl_after_lb {a : UInt8} {t : Bytes} (ha : isNl a = true) (h1 : hasNl t = true)
+    (h2 : isLastCrlf a t = false) : hasNl ((a :: t).drop (lbLen (a :: t))) = true := by
+  rcases isNl_iff.1 ha with h | h <;> subst h
+  · simpa [lbLen_lf] using h1
+  · cases t with
+    | nil => simp at h1
+    | cons b t2 =>
+      by_cases hb : b = 10
+      · subst hb
+        rw [lbLen_crlf]
+        cases ht2 : hasNl t2 with
+        | true => simpa using ht2
+        | false =>
+          have : isLastCrlf 13 (10 :: t2) = true := isLastCrlf_iff.2 ⟨rfl, t2, rfl, ht2⟩
+          rw [this] at h2; simp at h2
+      · rw [lbLen_cr_not_lf t2 hb]; simpa using h1
+
+/-- **Hold-back safety.** When the buffer `b` contains no delimiter match, releasing everything
+before `last_newline(b)` cannot lose a delimiter: for every continuation `c` the leftmost match in
+`b ++ c` is the leftmost match in (held-back tail ++ c), moved by the released length. -/
+theorem hold_safe {bnd : Bytes} (hb : BoundaryOk bnd) (b : Bytes)
+    (h : searchDelim bnd false b = none) (c : Bytes) :
+    searchDelim bnd false (b ++ c) =
+      shift (lastNewline b) (searchDelim bnd false (b.drop (lastNewline b) ++ c)) := by
+  induction b with
+  | nil => simp [lastNewline]
+  | cons a t ih =>
+    rcases searchDelim_cons_eq_none.1 h with ⟨hm, ht⟩
+    cases h1 : hasNl t with
+    | true =>
+      cases h2 : isLastCrlf a t with
+      | true => rw [lastNewline_cons_crlf h1 h2]; simp
+      | false =>
+        rw [lastNewline_cons_more h1 h2]
+        have hm' : matchDelimAt bnd false (a :: (t ++ c)) = none := by
+          cases ha : isNl a with
+          | false => exact matchDelimAt_not_nl ha
+          | true =>
+            cases hx : matchDelimAt bnd false (a :: (t ++ c)) with
+            | none => rfl
+            | some v =>
+              rcases v with ⟨n, f⟩
+              have := matchDelimAt_cut_nl (s := a :: t) (c := c) hb (hasNl_after_lb ha h1 h2)
+                (by simpa using hx)
+              rcases this with ⟨n', hn'⟩
+              rw [hm] at hn'; simp at hn'
+        rw [List.cons_append, searchDelim_cons_none hm', ih ht, shift_shift]
+        have : (a :: t).drop (1 + lastNewline t) = t.drop (lastNewline t) := by
+          rw [Nat.add_comm]; rfl
+        rw [this, Nat.add_comm]
+    | false =>
+      cases h2 : isNl a with
+      | true => rw [lastNewline_cons_nl h1 h2]; simp
+      | false =>
+        rw [lastNewline_cons_none h1 h2]
+        have hno : hasNl (a :: t) = false := by simp [hasNl_cons, h1, h2]
+        rw [searchDelim_append_no_nl (a :: t) c hno]
+        have : 1 + t.length = (a :: t).length := by simp; omega
+        rw [this]; simp
+
+/-- **Far case.** When `--boundary` does not occur in the buffer at all and more than
+`len("\n--boundary")` bytes follow the last line break, everything may be released. -/
+theorem hold_safe_far {bnd : Bytes} (hb : BoundaryOk bnd) (b : Bytes)
+    (hc : containsSub (delim bnd) b = false)
+    (hfar : b.length - lastNewline b > (delim bnd).length + 1) (c : Bytes) :
+    searchDelim bnd false (b ++ c) = shift b.length (searchDelim bnd false c) := by
+  have hnone : searchDelim bnd false b = none := by
+    cases hs : searchDelim bnd false b with
+    | none => rfl
+    | some r => rw [searchDelim_some_contains hs] at hc; simp at hc
+  rw [hold_safe hb b hnone c]
+  have hk := lastNewline_le b
+  -- the held-back tail
+  rcases lastNewline_tail b with h0 | ⟨a, r, htail, ha, hrest⟩
+  · have : b.length - lastNewline b = 0 := by
+      have := congrArg List.length h0; simp at this; omega
+    omega
+  · have hlen : (a :: r).length = b.length - lastNewline b := by rw [← htail]; simp
+    have hbsplit : b = b.take (lastNewline b) ++ (a :: r) := by rw [← htail]; simp
+    -- no match can start inside the tail
+    have key : searchDelim bnd false ((a :: r) ++ c) = shift (a :: r).length (searchDelim bnd false c) := by
+      have hl2 : 2 ≤ (a :: r).length := by rw [delim_length] at hfar; omega
+      have hlb : lbLen ((a :: r) ++ c) = lbLen (a :: r) := lbLen_append_of_two_le c hl2
+      -- `--boundary` is not a prefix of what follows the line break
+      have hnp : ∀ x : Bytes, (delim bnd).isPrefixOf ((a :: r).drop (lbLen (a :: r)) ++ x) = false := by
+        intro x
+        cases hp : (delim bnd).isPrefixOf ((a :: r).drop (lbLen (a :: r)) ++ x) with
+        | false => rfl
+        | true =>
+          exfalso
+          have hle : (delim bnd).length ≤ ((a :: r).drop (lbLen (a :: r))).length := by
+            have := lbLen_le_two (a :: r)
+            simp only [List.length_drop]
+            rw [delim_length] at hfar ⊢
+            omega
+          rw [isPrefixOf_append_of_length_le x hle, List.isPrefixOf_iff_prefix] at hp
+          rcases hp with ⟨y, hy⟩
+          have : b = (b.take (lastNewline b) ++ (a :: r).take (lbLen (a :: r))) ++ (delim bnd ++ y) := by
+            rw [hy, List.append_assoc, List.take_append_drop]; exact hbsplit
+          rw [this, containsSub_infix] at hc; simp at hc
+      have hm0 : matchDelimAt bnd false ((a :: r) ++ c) = none := by
+        cases hx : matchDelimAt bnd false ((a :: r) ++ c) with
+        | none => rfl
+        | some v =>
+          rcases v with ⟨n, f⟩
+          rcases matchDelimAt_iff.1 hx with ⟨r', m, _, hd, _, _⟩
+          rw [hlb, List.drop_append_of_le_length (lbLen_le_length _)] at hd
+          have := hnp c
+          rw [hd, List.isPrefixOf_iff_prefix.2 (List.prefix_append _ _)] at this
+          simp at this
+      rcases isNl_iff.1 ha with h | h <;> subst h
+      · -- LF: the rest of the tail has no line break
+        rw [lbLen_lf] at hrest
+        simp at hrest
+        rw [List.cons_append] at hm0 ⊢
+        rw [searchDelim_cons_none hm0, searchDelim_append_no_nl r c hrest, shift_shift]
+        simp
+      · cases r with
+        | nil => simp at hl2
+        | cons b2 r2 =>
+          by_cases hb2 : b2 = 10
+          · subst hb2
+            rw [lbLen_crlf] at hrest hnp
+            simp at hrest
+            have hm1 : matchDelimAt bnd false (10 :: (r2 ++ c)) = none := by
+              cases hx : matchDelimAt bnd false (10 :: (r2 ++ c)) with
+              | none => rfl
+              | some v =>
+                rcases v with ⟨n, f⟩
+                rcases matchDelimAt_iff.1 hx with ⟨r', m, _, hd, _, _⟩
+                rw [lbLen_lf] at hd
+                have := hnp c
+                simp at this hd
+                rw [hd, List.isPrefixOf_iff_prefix.2 (List.prefix_append _ _)] at this
+                simp at this
+            simp only [List.cons_append] at hm0 ⊢
+            rw [searchDelim_cons_none hm0, searchDelim_cons_none hm1,
+              searchDelim_append_no_nl r2 c hrest, shift_shift, shift_shift]
+            simp
+          · rw [lbLen_cr_not_lf r2 hb2] at hrest
+            simp at hrest
+            rw [List.cons_append] at hm0 ⊢
+            rw [searchDelim_cons_none hm0, searchDelim_append_no_nl (b2 :: r2) c hrest, shift_shift]
+            simp
+    rw [htail, key, shift_shift]
+    congr 1
+    omega
+
+/-! ### a recognised delimiter stays recognised -/
+
+/-- **Decision stability.** The leftmost match found in the buffer is the leftmost match of every
+extension of the buffer, with the same kind; only a trailing CR may still be completed by an LF. -/
+theorem searchDelim_append_stable {bnd : Bytes} (hb : BoundaryOk bnd) {b : Bytes} {s e : Nat} {f : Bool}
+    (h : searchDelim bnd false b = some (s, e, f)) (c : Bytes) :
+    ∃ e', searchDelim bnd false (b ++ c) = some (s, e', f) ∧
+      (f = false → e' = e ∨ (e' = e + 1 ∧ b.length = e ∧ ∃ c', c = 10 :: c')) := by
+  induction b generalizing s e with
+  | nil => simp [searchDelim] at h
+  | cons a t ih =>
+    cases hm : matchDelimAt bnd false (a :: t) with
+    | some v =>
+      rcases v with ⟨n, f'⟩
+      rw [searchDelim_cons_some hm] at h
+      simp at h
+      rcases h with ⟨rfl, rfl, rfl⟩
+      rcases matchDelimAt_append c hm with ⟨n', hn', hrel⟩
+      exact ⟨n', searchDelim_cons_some (by simpa using hn'), hrel⟩
+    | none =>
+      rw [searchDelim_cons_none hm] at h
+      cases ht : searchDelim bnd false t with
+      | none => rw [ht] at h; simp at h
+      | some v =>
+        rcases v with ⟨s0, e0, f0⟩
+        rw [ht] at h
+        simp at h
+        rcases h with ⟨rfl, rfl, rfl⟩
+        rcases ih ht with ⟨e0', he0', hrel⟩
+        have hnt : hasNl t = true := searchDelim_some_hasNl ht
+        have hm' : matchDelimAt bnd false (a :: (t ++ c)) = none := by
+          cases ha : isNl a with
+          | false => exact matchDelimAt_not_nl ha
+          | true =>
+            cases hx : matchDelimAt bnd false (a :: (t ++ c)) with
+            | none => rfl
+            | some v =>
+              rcases v with ⟨n, f2⟩
+              exfalso
+              have hafter : hasNl ((a :: t).drop (lbLen (a :: t))) = true := by
+                rcases isNl_iff.1 ha with h | h <;> subst h
+                · simpa [lbLen_lf] using hnt
+                · cases t with
+                  | nil => simp at hnt
+                  | cons b2 t2 =>
+                    by_cases hb2 : b2 = 10
+                    · subst hb2
+                      rw [lbLen_crlf]
+                      cases hm1 : matchDelimAt bnd false (10 :: t2) with
+                      | some v =>
+                        rcases v with ⟨n1, f1⟩
+                        rw [matchDelimAt_crlf_of_lf hm1] at hm; simp at hm
+                      | none =>
+                        rw [searchDelim_cons_none hm1] at ht
+                        cases ht2 : searchDelim bnd false t2 with
+                        | none => rw [ht2] at ht; simp at ht
+                        | some v => simpa using searchDelim_some_hasNl ht2
+                    · rw [lbLen_cr_not_lf t2 hb2]; simpa using hnt
+              rcases matchDelimAt_cut_nl (s := a :: t) (c := c) hb hafter (by simpa using hx) with ⟨n', hn'⟩
+              rw [hm] at hn'; simp at hn'
+        refine ⟨e0' + 1, ?_, ?_⟩
+        · rw [List.cons_append, searchDelim_cons_none hm', he0']; rfl
+        · intro hf
+          rcases hrel hf with h1 | ⟨h1, h2, h3⟩
+          · left; omega
+          · right; exact ⟨by omega, by simp; omega, h3⟩
+
+/-! ### bounds -/
+
+theorem matchTail_le {r : Bytes} {m : Nat} {f : Bool} (h : matchTail r = some (m, f)) : m ≤ r.length := by
+  cases f with
+  | false =>
+    rcases matchTail_false_iff.1 h with ⟨hh, a, t, rfl, _, _, rfl⟩
+    have := lbLen_le_length (a :: t)
+    simp at this ⊢; omega
+  | true =>
+    rcases matchTail_true_iff.1 h with ⟨r2, rfl, rfl⟩
+    have h1 := lbLen_le_length (r2.dropWhile isHws)
+    have h2 : (r2.takeWhile isHws).length + (r2.dropWhile isHws).length = r2.length := by
+      rw [← List.length_append, List.takeWhile_append_dropWhile]
+    simp; omega
+
+theorem matchDelimAt_bounds {bnd s : Bytes} {n : Nat} {f : Bool}
+    (h : matchDelimAt bnd false s = some (n, f)) : 0 < n ∧ n ≤ s.length := by
+  rcases matchDelimAt_iff.1 h with ⟨r, m, hl, hd, hm, rfl⟩
+  have := matchTail_le hm
+  have hlen := congrArg List.length hd
+  simp [delim] at hlen
+  have := lbLen_le_length s
+  omega
+
+theorem searchDelim_bounds {bnd b : Bytes} {s e : Nat} {f : Bool}
+    (h : searchDelim bnd false b = some (s, e, f)) : s < e ∧ e ≤ b.length := by
+  induction b generalizing s e with
+  | nil => simp [searchDelim] at h
+  | cons a t ih =>
+    cases hm : matchDelimAt bnd false (a :: t) with
+    | some v =>
+      rcases v with ⟨n, f'⟩
+      rw [searchDelim_cons_some hm] at h
+      simp at h
+      rcases h with ⟨rfl, rfl, rfl⟩
+      exact matchDelimAt_bounds hm
+    | none =>
+      rw [searchDelim_cons_none hm] at h
+      cases ht : searchDelim bnd false t with
+      | none => rw [ht] at h; simp at h
+      | some v =>
+        rcases v with ⟨s0, e0, f0⟩
+        rw [ht] at h; simp at h
+        rcases h with ⟨rfl, rfl, rfl⟩
+        have := ih ht
+        simp; omega
+
+/-! ### `_parse_data` -/
+
+theorem dataCut_of_search {bnd b : Bytes} {s e : Nat} {f : Bool}
+    (h : searchDelim bnd false b = some (s, e, f)) : dataCut bnd b = (s, e, some f) := by
+  have hc : containsSub (45 :: 45 :: bnd) b = true := searchDelim_some_contains h
+  simp [dataCut, hc, h]
+
+/-- without a match `_parse_data` releases a prefix of the buffer and that prefix is safe -/
+theorem dataCut_of_no_search {bnd : Bytes} (hb : BoundaryOk bnd) {b : Bytes}
+    (h : searchDelim bnd false b = none) :
+    ∃ k, dataCut bnd b = (k, k, none) ∧ k ≤ b.length ∧
+      (k = lastNewline b ∨ (k = b.length ∧ 2 ≤ b.length)) ∧
+      ∀ c, searchDelim bnd false (b ++ c) = shift k (searchDelim bnd false (b.drop k ++ c)) := by
+  cases hc : containsSub (45 :: 45 :: bnd) b with
+  | true =>
+    refine ⟨lastNewline b, by simp [dataCut, hc, h], lastNewline_le b, Or.inl rfl, hold_safe hb b h⟩
+  | false =>
+    by_cases hfar : b.length - lastNewline b > (45 :: 45 :: bnd).length + 1
+    · refine ⟨b.length, by simp [dataCut, hc]; intro hh; simp at hfar; omega, Nat.le_refl _,
+        Or.inr ⟨rfl, by simp at hfar; omega⟩, ?_⟩
+      intro c
+      simpa using hold_safe_far hb b hc hfar c
+    · refine ⟨lastNewline b, ?_, lastNewline_le b, Or.inl rfl, hold_safe hb b h⟩
+      simp [dataCut, hc]; intro hh; simp at hfar; omega
+
+/-! ### the DATA loop (`start = false`) -/
+
+theorem dataStep_false (bnd buf : Bytes) :
+    dataStep bnd false buf =
+      .ok (buf.take (dataCut bnd buf).1, buf.drop (dataCut bnd buf).2.1, false, (dataCut bnd buf).2.2) := by
+  simp [dataStep, parseData]
+
+theorem dataLoop_false_decides {bnd buf : Bytes} {s e : Nat} {f : Bool} (fuel : Nat) (acc : Bytes)
+    (h : searchDelim bnd false buf = some (s, e, f)) :
+    dataLoop bnd (fuel + 1) false buf acc = .ok (acc ++ buf.take s, buf.drop e, false, some f) := by
+  simp [dataLoop, dataStep_false, dataCut_of_search h]
+
+theorem dataLoop_false_holds {bnd : Bytes} (hb : BoundaryOk bnd) (fuel : Nat) (buf acc : Bytes)
+    (h : searchDelim bnd false buf = none) :
+    ∃ p buf', dataLoop bnd fuel false buf acc = .ok (acc ++ p, buf', false, none) ∧ p ++ buf' = buf ∧
+      ∀ c, searchDelim bnd false (buf ++ c) = shift p.length (searchDelim bnd false (buf' ++ c)) := by
+  induction fuel generalizing buf acc with
+  | zero => exact ⟨[], buf, by simp [dataLoop], by simp, by simp⟩
+  | succ fuel ih =>
+    rcases dataCut_of_no_search hb h with ⟨k, hk, hkle, _, hsafe⟩
+    cases hp : (buf.take k).isEmpty with
+    | true =>
+      refine ⟨[], buf.drop k, ?_, ?_, ?_⟩
+      · simp [dataLoop, dataStep_false, hk, hp]
+      · have : buf.take k = [] := by simpa using hp
+        have h2 := List.take_append_drop k buf
+        rw [this] at h2; simpa using h2
+      · intro c
+        have : buf.take k = [] := by simpa using hp
+        have hk0 : k = 0 ∨ buf = [] := by
+          rcases List.take_eq_nil_iff.1 this with h | h
+          · left; exact h
+          · right; exact h
+        rcases hk0 with h0 | h0
+        · subst h0; simp
+        · subst h0; simp
+    | false =>
+      have hnone : searchDelim bnd false (buf.drop k) = none := by
+        have := hsafe []
+        simp [h] at this
+        exact shift_eq_none.1 this.symm
+      rcases ih (buf.drop k) (acc ++ buf.take k) hnone with ⟨p2, buf2, hrun, hcat, hsafe2⟩
+      refine ⟨buf.take k ++ p2, buf2, ?_, ?_, ?_⟩
+      · simp [dataLoop, dataStep_false, hk, hp, hrun]
+      · rw [List.append_assoc, hcat, List.take_append_drop]
+      · intro c
+        rw [hsafe c, hsafe2 c, shift_shift]
+        congr 1
+        simp [List.length_take, Nat.min_eq_left hkle]; omega
+
+theorem shift_eq_some {k : Nat} {r : Option (Nat × Nat × Bool)} {s e : Nat} {f : Bool}
+    (h : shift k r = some (s, e, f)) : ∃ s2 e2, r = some (s2, e2, f) ∧ s = s2 + k ∧ e = e2 + k := by
+  cases r with
+  | none => simp at h
+  | some v =>
+    rcases v with ⟨s2, e2, f2⟩
+    simp [shift] at h
+    exact ⟨s2, e2, by rw [h.2.2], h.1.symm, h.2.1.symm⟩
+
+theorem take_add_append (p l : Bytes) (k : Nat) : (p ++ l).take (k + p.length) = p ++ l.take k := by
+  rw [List.take_append, List.take_of_length_le (by omega)]
+  congr 1
+  rw [Nat.add_sub_cancel]
+
+theorem drop_add_append (p l : Bytes) (k : Nat) : (p ++ l).drop (k + p.length) = l.drop k := by
+  rw [List.drop_append, List.drop_of_length_le (by omega)]
+  rw [Nat.add_sub_cancel]; simp
+
+theorem dataSpec_false {bnd S : Bytes} :
+    dataSpec bnd false S =
+      match searchDelim bnd false S with
+      | some (s, e, f) => some (S.take s, f, S.drop e)
+      | none => none := by
+  unfold dataSpec
+  cases searchDelim bnd false S with
+  | none => rfl
+  | some v => rcases v with ⟨s, e, f⟩; simp
+
+/-- **parseData_split, DATA state, every chunk list.** If the reference semantics finds the
+delimiter in the whole stream `buf ++ chunks.flatten`, the chunked DATA loop delivers exactly the
+same payload and delimiter kind; the residual is the same up to the LF of a CRLF that was split. -/
+theorem dataPhase_false_sound {bnd : Bytes} (hb : BoundaryOk bnd) (chunks : List Bytes) :
+    ∀ (buf acc P : Bytes) (f : Bool) (R : Bytes),
+      dataSpec bnd false (buf ++ chunks.flatten) = some (P, f, R) →
+      ∃ R', dataPhase bnd false buf acc chunks = .ok (acc ++ P, some (f, R')) ∧
+        (f = false → R' = R ∨ R' = 10 :: R) := by
+  induction chunks with
+  | nil =>
+    intro buf acc P f R h
+    rw [dataSpec_false] at h
+    simp only [List.flatten_nil, List.append_nil] at h
+    cases hs : searchDelim bnd false buf with
+    | none => rw [hs] at h; simp at h
+    | some v =>
+      rcases v with ⟨s, e, f'⟩
+      rw [hs] at h; simp at h
+      rcases h with ⟨rfl, rfl, rfl⟩
+      refine ⟨buf.drop e, ?_, fun _ => Or.inl rfl⟩
+      simp [dataPhase, dataLoop_false_decides _ _ hs]
+  | cons c cs ih =>
+    intro buf acc P f R h
+    rw [dataSpec_false] at h
+    cases hS : searchDelim bnd false (buf ++ (c :: cs).flatten) with
+    | none => rw [hS] at h; simp at h
+    | some v =>
+      rcases v with ⟨s, e, f'⟩
+      rw [hS] at h; simp only [Option.some.injEq, Prod.mk.injEq] at h
+      rcases h with ⟨rfl, rfl, rfl⟩
+      cases hsb : searchDelim bnd false buf with
+      | some v =>
+        rcases v with ⟨s1, e1, f1⟩
+        rcases searchDelim_append_stable hb hsb (c :: cs).flatten with ⟨e1', hst, hrel⟩
+        rw [hS] at hst
+        simp only [Option.some.injEq, Prod.mk.injEq] at hst
+        rcases hst with ⟨rfl, rfl, rfl⟩
+        have hbd := searchDelim_bounds hsb
+        refine ⟨buf.drop e1 ++ (c :: cs).flatten, ?_, ?_⟩
+        · simp only [dataPhase, dataLoop_false_decides _ _ hsb]
+          rw [List.take_append_of_le_length (by omega)]
+        · intro hf
+          rcases hrel hf with h1 | ⟨h1, h2, c', h3⟩
+          · left; rw [h1, List.drop_append_of_le_length hbd.2]
+          · right
+            rw [h1, h3, ← h2]
+            have : buf.drop buf.length = [] := by simp
+            rw [this, List.nil_append]
+            have := drop_add_append buf (10 :: c') 1
+            rw [Nat.add_comm] at this
+            rw [this]; rfl
+      | none =>
+        rcases dataLoop_false_holds hb (buf.length + 1) buf acc hsb with ⟨p, buf', hrun, hcat, hsafe⟩
+        have hS2 := hsafe (c :: cs).flatten
+        rw [hS] at hS2
+        rcases shift_eq_some hS2.symm with ⟨s2, e2, hs2, rfl, rfl⟩
+        have hassoc : (buf' ++ c) ++ cs.flatten = buf' ++ (c :: cs).flatten := by simp
+        have hspec : dataSpec bnd false ((buf' ++ c) ++ cs.flatten) =
+            some ((buf' ++ (c :: cs).flatten).take s2, f', (buf' ++ (c :: cs).flatten).drop e2) := by
+          rw [dataSpec_false, hassoc, hs2]
+        rcases ih (buf' ++ c) (acc ++ p) _ f' _ hspec with ⟨R', hrun', hrel'⟩
+        refine ⟨R', ?_, ?_⟩
+        · simp only [dataPhase, hrun]
+          rw [hrun']
+          congr 2
+          rw [← hcat, List.append_assoc p buf', take_add_append, List.append_assoc]
+        · intro hf
+          have : (buf ++ (c :: cs).flatten).drop (e2 + p.length) = (buf' ++ (c :: cs).flatten).drop e2 := by
+            rw [← hcat, List.append_assoc p buf', drop_add_append]
+          rw [this]
+          exact hrel' hf
+
+/-! ### the DATA_START loop (`start = true`) -/
+
+theorem lbLen_eq_two {s : Bytes} (h : lbLen s = 2) : ∃ t, s = 13 :: 10 :: t := by
+  match s with
+  | [] => simp [lbLen] at h
+  | [a] =>
+    simp only [lbLen] at h
+    split at h; · omega
+    split at h <;> omega
+  | a :: b :: t =>
+    simp only [lbLen] at h
+    split at h; · omega
+    split at h
+    · rename_i ha
+      split at h
+      · rename_i hb'
+        simp at ha hb'; subst ha; subst hb'; exact ⟨t, rfl⟩
+      · omega
+    · omega
+
+theorem containsSub_length {p b : Bytes} (h : containsSub p b = true) : p.length ≤ b.length := by
+  induction b with
+  | nil => cases p with
+    | nil => simp
+    | cons a p => simp [containsSub] at h
+  | cons a t ih =>
+    simp only [containsSub, Bool.or_eq_true] at h
+    rcases h with h | h
+    · rw [List.isPrefixOf_iff_prefix] at h; exact h.length_le
+    · have := ih h; simp; omega
+
+theorem searchDelim_some_two_le {bnd b : Bytes} {r : Nat × Nat × Bool}
+    (h : searchDelim bnd false b = some r) : 2 ≤ b.length := by
+  have := containsSub_length (searchDelim_some_contains h)
+  rw [delim_length] at this; omega
+
+/-- in DATA_START a non-zero hold-back point lies after the leading line break, and that line
+break can no longer change -/
+theorem lb_le_hold {buf : Bytes} {k : Nat} (hl : 0 < lbLen buf) (hk : 0 < k)
+    (h : k = lastNewline buf ∨ (k = buf.length ∧ 2 ≤ buf.length)) :
+    lbLen buf ≤ k ∧ ∀ c, lbLen (buf ++ c) = lbLen buf := by
+  match buf with
+  | [] => simp [lbLen] at hl
+  | [a] =>
+    exfalso
+    rcases lbLen_pos_iff.1 hl with ⟨a', t', he, hn⟩
+    injection he with h1 h2; subst h1; subst h2
+    rcases h with h | ⟨_, h⟩
+    · rw [lastNewline_cons_nl (by rfl) hn] at h; omega
+    · simp at h
+  | a :: b :: t =>
+    refine ⟨?_, fun c => lbLen_append_of_two_le c (by simp)⟩
+    have h2 := lbLen_le_two (a :: b :: t)
+    rcases Nat.lt_or_ge (lbLen (a :: b :: t)) 2 with hlt | hge
+    · omega
+    · have heq : lbLen (a :: b :: t) = 2 := by omega
+      rcases lbLen_eq_two heq with ⟨t2, he⟩
+      injection he with h1 he2; injection he2 with h3 h4; subst h1; subst h3; subst h4
+      rw [heq]
+      rcases h with h | ⟨h, _⟩
+      · cases ht2 : hasNl t with
+        | false =>
+          have : isLastCrlf 13 (10 :: t) = true := isLastCrlf_iff.2 ⟨rfl, t, rfl, ht2⟩
+          rw [lastNewline_cons_crlf (by simp [hasNl_cons, isNl]) this] at h; omega
+        | true =>
+          have h1 : isLastCrlf 13 (10 :: t) = false := by
+            cases hx : isLastCrlf 13 (10 :: t) with
+            | false => rfl
+            | true =>
+              rcases isLastCrlf_iff.1 hx with ⟨_, t2, he, hno⟩
+              injection he with _ he; subst he; rw [hno] at ht2; simp at ht2
+          have h2 : isLastCrlf 10 t = false := by
+            cases hx : isLastCrlf 10 t with
+            | false => rfl
+            | true => have := (isLastCrlf_iff.1 hx).1; simp at this
+          rw [lastNewline_cons_more (by simp [hasNl_cons, isNl]) h1, lastNewline_cons_more ht2 h2] at h
+          omega
+      · simp at h; omega
+
+theorem dataStep_true {bnd buf : Bytes} (hl : 0 < lbLen buf) :
+    dataStep bnd true buf =
+      if (dataCut bnd buf).2.1 = 0 then .ok ([], buf, true, none)
+      else .ok ((buf.take (dataCut bnd buf).1).drop (lbLen buf), buf.drop (dataCut bnd buf).2.1, false,
+        (dataCut bnd buf).2.2) := by
+  have : (lbLen buf == 0) = false := by simp; omega
+  simp [dataStep, parseData, this]
+
+theorem dataLoop_true_decides {bnd buf : Bytes} {s e : Nat} {f : Bool} (fuel : Nat) (acc : Bytes)
+    (hl : 0 < lbLen buf) (h : searchDelim bnd false buf = some (s, e, f)) :
+    dataLoop bnd (fuel + 1) true buf acc =
+      .ok (acc ++ (buf.take s).drop (lbLen buf), buf.drop e, false, some f) := by
+  have := searchDelim_bounds h
+  have he : e ≠ 0 := by omega
+  simp [dataLoop, dataStep_true hl, dataCut_of_search h, he]
+
+theorem dataLoop_true_holds {bnd : Bytes} (hb : BoundaryOk bnd) (fuel : Nat) (buf acc : Bytes)
+    (hl : 0 < lbLen buf) (h : searchDelim bnd false buf = none) :
+    dataLoop bnd fuel true buf acc = .ok (acc, buf, true, none) ∨
+    ∃ p buf', dataLoop bnd fuel true buf acc = .ok (acc ++ p.drop (lbLen buf), buf', false, none) ∧
+      p ++ buf' = buf ∧ lbLen buf ≤ p.length ∧ (∀ c, lbLen (buf ++ c) = lbLen buf) ∧
+      ∀ c, searchDelim bnd false (buf ++ c) = shift p.length (searchDelim bnd false (buf' ++ c)) := by
+  cases fuel with
+  | zero => left; simp [dataLoop]
+  | succ fuel =>
+    rcases dataCut_of_no_search hb h with ⟨k, hk, hkle, hkk, hsafe⟩
+    by_cases hk0 : k = 0
+    · left; subst hk0; simp [dataLoop, dataStep_true hl, hk]
+    · right
+      have hlb := lb_le_hold hl (by omega) hkk
+      have hnone : searchDelim bnd false (buf.drop k) = none := by
+        have := hsafe []
+        simp [h] at this
+        exact shift_eq_none.1 this.symm
+      rcases dataLoop_false_holds hb fuel (buf.drop k) (acc ++ (buf.take k).drop (lbLen buf)) hnone
+        with ⟨p2, buf2, hrun, hcat, hsafe2⟩
+      have hlen : (buf.take k).length = k := by simp [List.length_take, Nat.min_eq_left hkle]
+      refine ⟨buf.take k ++ p2, buf2, ?_, ?_, ?_, hlb.2, ?_⟩
+      · simp only [dataLoop, dataStep_true hl, hk, hk0, if_false, Bool.true_or, if_true, hrun]
+        rw [List.drop_append_of_le_length (by omega), List.append_assoc]
+        simp
+      · rw [List.append_assoc, hcat, List.take_append_drop]
+      · simp; omega
+      · intro c
+        rw [hsafe c, hsafe2 c, shift_shift]
+        congr 1
+        simp [hlen]; omega
+
+theorem dataSpec_true {bnd S : Bytes} :
+    dataSpec bnd true S =
+      match searchDelim bnd false S with
+      | some (s, e, f) => some ((S.take s).drop (lbLen S), f, S.drop e)
+      | none => none := by
+  unfold dataSpec
+  cases searchDelim bnd false S with
+  | none => rfl
+  | some v => rcases v with ⟨s, e, f⟩; simp
+
+/-- **parseData_split, DATA_START state, every chunk list.** -/
+theorem dataPhase_true_sound {bnd : Bytes} (hb : BoundaryOk bnd) (chunks : List Bytes) :
+    ∀ (buf acc P : Bytes) (f : Bool) (R : Bytes), 0 < lbLen buf →
+      dataSpec bnd true (buf ++ chunks.flatten) = some (P, f, R) →
+      ∃ R', dataPhase bnd true buf acc chunks = .ok (acc ++ P, some (f, R')) ∧
+        (f = false → R' = R ∨ R' = 10 :: R) := by
+  induction chunks with
+  | nil =>
+    intro buf acc P f R hl h
+    rw [dataSpec_true] at h
+    simp only [List.flatten_nil, List.append_nil] at h
+    cases hs : searchDelim bnd false buf with
+    | none => rw [hs] at h; simp at h
+    | some v =>
+      rcases v with ⟨s, e, f'⟩
+      rw [hs] at h; simp at h
+      rcases h with ⟨rfl, rfl, rfl⟩
+      refine ⟨buf.drop e, ?_, fun _ => Or.inl rfl⟩
+      simp [dataPhase, dataLoop_true_decides _ _ hl hs]
+  | cons c cs ih =>
+    intro buf acc P f R hl h
+    rw [dataSpec_true] at h
+    cases hS : searchDelim bnd false (buf ++ (c :: cs).flatten) with
+    | none => rw [hS] at h; simp at h
+    | some v =>
+      rcases v with ⟨s, e, f'⟩
+      rw [hS] at h; simp only [Option.some.injEq, Prod.mk.injEq] at h
+      rcases h with ⟨rfl, rfl, rfl⟩
+      cases hsb : searchDelim bnd false buf with
+      | some v =>
+        rcases v with ⟨s1, e1, f1⟩
+        rcases searchDelim_append_stable hb hsb (c :: cs).flatten with ⟨e1', hst, hrel⟩
+        rw [hS] at hst
+        simp only [Option.some.injEq, Prod.mk.injEq] at hst
+        rcases hst with ⟨rfl, rfl, rfl⟩
+        have hbd := searchDelim_bounds hsb
+        have h2 := searchDelim_some_two_le hsb
+        refine ⟨buf.drop e1 ++ (c :: cs).flatten, ?_, ?_⟩
+        · simp only [dataPhase, dataLoop_true_decides _ _ hl hsb]
+          rw [List.take_append_of_le_length (by omega), lbLen_append_of_two_le _ h2]
+        · intro hf
+          rcases hrel hf with h1 | ⟨h1, h2, c', h3⟩
+          · left; rw [h1, List.drop_append_of_le_length hbd.2]
+          · right
+            rw [h1, h3, ← h2]
+            have : buf.drop buf.length = [] := by simp
+            rw [this, List.nil_append]
+            have := drop_add_append buf (10 :: c') 1
+            rw [Nat.add_comm] at this
+            rw [this]; rfl
+      | none =>
+        rcases dataLoop_true_holds hb (buf.length + 1) buf acc hl hsb with hwait | ⟨p, buf', hrun, hcat, hlp, hlbs, hsafe⟩
+        · -- still waiting in DATA_START: the next chunk is appended to the untouched buffer
+          have hl' : 0 < lbLen (buf ++ c) := Nat.lt_of_lt_of_le hl (lbLen_append_ge buf c)
+          have hassoc : (buf ++ c) ++ cs.flatten = buf ++ (c :: cs).flatten := by simp
+          have hspec : dataSpec bnd true ((buf ++ c) ++ cs.flatten) =
+              some (((buf ++ (c :: cs).flatten).take s).drop (lbLen (buf ++ (c :: cs).flatten)), f',
+                (buf ++ (c :: cs).flatten).drop e) := by
+            rw [dataSpec_true, hassoc, hS]
+          rcases ih (buf ++ c) acc _ f' _ hl' hspec with ⟨R', hrun', hrel'⟩
+          exact ⟨R', by simp only [dataPhase, hwait]; exact hrun', hrel'⟩
+        · have hS2 := hsafe (c :: cs).flatten
+          rw [hS] at hS2
+          rcases shift_eq_some hS2.symm with ⟨s2, e2, hs2, rfl, rfl⟩
+          have hassoc : (buf' ++ c) ++ cs.flatten = buf' ++ (c :: cs).flatten := by simp
+          have hspec : dataSpec bnd false ((buf' ++ c) ++ cs.flatten) =
+              some ((buf' ++ (c :: cs).flatten).take s2, f', (buf' ++ (c :: cs).flatten).drop e2) := by
+            rw [dataSpec_false, hassoc, hs2]
+          rcases dataPhase_false_sound hb cs (buf' ++ c) (acc ++ p.drop (lbLen buf)) _ f' _ hspec
+            with ⟨R', hrun', hrel'⟩
+          refine ⟨R', ?_, ?_⟩
+          · simp only [dataPhase, hrun]
+            rw [hrun']
+            congr 2
+            have hlp' : lbLen (p ++ buf') ≤ p.length := by rw [hcat]; exact hlp
+            rw [hlbs, ← hcat, List.append_assoc p buf', take_add_append,
+              List.drop_append_of_le_length hlp', List.append_assoc]
+          · intro hf
+            have : (buf ++ (c :: cs).flatten).drop (e2 + p.length) = (buf' ++ (c :: cs).flatten).drop e2 := by
+              rw [← hcat, List.append_assoc p buf', drop_add_append]
+            rw [this]
+            exact hrel' hf
+
 end Wz.Multipart
